@@ -82,7 +82,9 @@ func (s *SqlBitSetAnd) String(ctx *sql.Ctx, options ...int) (string, error) {
 		if err != nil {
 			return "", err
 		}
-		strConditions[i] = fmt.Sprintf("bitShiftLeft(%s, %d)", strConditions[i], i)
+		// the condition is a UInt8 and bitShiftLeft keeps the type of its first argument:
+		// widen it, or the bit of the ninth and later clauses is shifted out
+		strConditions[i] = fmt.Sprintf("bitShiftLeft(toUInt64(%s), %d)", strConditions[i], i)
 	}
 	return fmt.Sprintf("groupBitOr(%s)", strings.Join(strConditions, " + ")), nil
 }
